@@ -4,6 +4,11 @@
     iter.try_for_each(|x| body)      ==>   for x in iter { body? }      (the combinator's value is threaded into the
                                                                          caller's own `?` when it is applied directly)
 
+    iter.find(|x| p)                 ==>   loop { match next { None => break None, Some(x) => if p(&x) { break Some(x) } } }
+    iter.any(|x| p) / iter.all(..)   ==>   the same with `true` / `false` results
+    vec.extend(iter.map(|x| e))      ==>   for x in iter { vec.push(e) }
+    opt.map(|x| e)                   ==>   match opt { None => None, Some(x) => Some(e) }      (branch-free closures only)
+
 so that a loop and its combinator spelling are the same program for every rule (loop coverage, every-iteration guards,
 byte counting, panic-edge analysis with the caller's facts).  Only closures constructed in the calling function and
 passed directly are desugared; the closure's function is dropped from the program when this was its only use.
@@ -12,6 +17,13 @@ import copy
 
 FOR_EACH = "std::iter::Iterator::for_each"
 TRY_FOR_EACH = "std::iter::Iterator::try_for_each"
+FIND = "std::iter::Iterator::find"
+ANY = "std::iter::Iterator::any"
+ALL = "std::iter::Iterator::all"
+OPT_MAP = "std::option::Option::<T>::map"
+EXTEND = "std::iter::Extend::extend"
+ITER_MAP = "std::iter::Iterator::map"
+LOOP_MODES = {FOR_EACH: "for_each", TRY_FOR_EACH: "try", FIND: "find", ANY: "any", ALL: "all"}
 LN = 0
 
 
@@ -88,6 +100,126 @@ def _remap_term(t, L, B, ret_to):
     return t
 
 
+def _captures(m, cdef):
+    """for the closure aggregate `cl = closure{op0, op1, ..}` at cdef: per captured field either ("ref", place, ref local)
+    when the operand is a single-definition local holding `&place` / `&mut place`, or ("val", place) otherwise"""
+    bi, si, _ = cdef
+    ops = m["blocks"][bi]["s"][si]["r"].get("ops", [])
+    out = []
+    for op in ops:
+        r = _local_of(op)
+        if r is None:
+            out.append(("val", op.get("p")) if op.get("k") in ("copy", "move") else None)
+            continue
+        defs = [st for b in m["blocks"] for st in b["s"] if st.get("k") == "assign" and st.get("p") == r]
+        tdefs = [b for b in m["blocks"] if b["t"]["k"] == "call" and b["t"].get("dest") == r]
+        if len(defs) == 1 and not tdefs and defs[0]["r"].get("k") == "ref":
+            out.append(("ref", defs[0]["r"]["p"], r))
+        else:
+            out.append(("val", r))
+    return out
+
+
+def _join_place(base, rest):
+    if not rest:
+        return base
+    if isinstance(base, int):
+        return {"l": base, "p": list(rest)}
+    return {"l": base["l"], "p": list(base["p"]) + list(rest)}
+
+
+def _subst_env_place(p, ENV, env_is_ref, caps):
+    """a place rooted in the spliced closure's environment, expressed on the caller's own variables"""
+    if isinstance(p, int) or p.get("l") != ENV:
+        return p
+    proj = list(p["p"])
+    i = 0
+    if env_is_ref:
+        if not proj or proj[0] != "*":
+            return p
+        i = 1
+    if i >= len(proj) or not isinstance(proj[i], dict) or "f" not in proj[i]:
+        return p
+    k = proj[i]["f"]
+    i += 1
+    if not isinstance(k, int) or k >= len(caps) or caps[k] is None or caps[k][1] is None:
+        return p
+    c = caps[k]
+    if c[0] == "ref":
+        if i < len(proj) and proj[i] == "*":
+            return _join_place(c[1], proj[i + 1:])       # *(env.k)  is the captured variable itself
+        return _join_place(c[2], proj[i:])               # env.k     is the reference the caller took
+    return _join_place(c[1], proj[i:])
+
+
+def _inline_env(m, B, n, ENV, env_is_ref, caps):
+    """express the spliced closure body (blocks B..B+n-1) on the caller's variables: environment fields become the
+    captured places, and single-definition copies of a captured reference are read through"""
+    new = m["blocks"][B:B + n]
+    for nb in new:
+        _map_places(nb, lambda pl: _subst_env_place(pl, ENV, env_is_ref, caps))
+    refmap = dict((c[2], c[1]) for c in caps if c and c[0] == "ref")
+    if not refmap:
+        return
+    ndefs = {}
+    for nb in new:
+        for st in nb["s"]:
+            if st.get("k") == "assign" and isinstance(st.get("p"), int):
+                ndefs[st["p"]] = ndefs.get(st["p"], 0) + 1
+        if nb["t"]["k"] == "call" and isinstance(nb["t"].get("dest"), int):
+            ndefs[nb["t"]["dest"]] = ndefs.get(nb["t"]["dest"], 0) + 2
+    alias = {}
+    for nb in new:
+        for st in nb["s"]:
+            if st.get("k") == "assign" and isinstance(st.get("p"), int) and ndefs.get(st["p"]) == 1 and st.get("r", {}).get("k") == "use":
+                r = _local_of(st["r"]["a"])
+                if r in refmap:
+                    alias[st["p"]] = refmap[r]
+    if not alias:
+        return
+    def through(pl):
+        if isinstance(pl, dict) and pl.get("l") in alias and pl["p"] and pl["p"][0] == "*":
+            return _join_place(alias[pl["l"]], pl["p"][1:])
+        return pl
+    for nb in new:
+        _map_places(nb, through)
+
+
+def _map_places(blk, fn):
+    def op(o):
+        if isinstance(o, dict) and o.get("k") in ("copy", "move"):
+            o = dict(o)
+            o["p"] = fn(o["p"])
+        return o
+    for st in blk["s"]:
+        if "p" in st:
+            st["p"] = fn(st["p"])
+        r = st.get("r")
+        if r:
+            k = r["k"]
+            if k in ("use", "repeat", "cast", "un"):
+                r["a"] = op(r["a"])
+            elif k == "bin":
+                r["a"], r["b"] = op(r["a"]), op(r["b"])
+            elif k in ("ref", "rawptr", "discr"):
+                r["p"] = fn(r["p"])
+            elif k == "agg":
+                r["ops"] = [op(x) for x in r["ops"]]
+    t = blk["t"]
+    k = t["k"]
+    if k == "switch":
+        t["d"] = op(t["d"])
+    elif k == "drop":
+        t["p"] = fn(t["p"])
+    elif k in ("call", "tailcall"):
+        t["args"] = [op(x) for x in t["args"]]
+        if "dest" in t and t["dest"] is not None:
+            t["dest"] = fn(t["dest"])
+    elif k == "assert":
+        t["c"] = op(t["c"])
+        t["ops"] = [op(x) for x in t["ops"]]
+
+
 def _local_of(op):
     if op.get("k") in ("copy", "move") and isinstance(op["p"], int):
         return op["p"]
@@ -137,11 +269,61 @@ def _caller_try(m, dest, target):
     return None
 
 
+def _env_rvalue(types, cm, cl):
+    """the closure's environment argument: `&mut cl` / `&cl` for FnMut / Fn closures, `move cl` for FnOnce"""
+    ety = types[cm["locals"][1]]
+    if ety.get("k") == "ref":
+        return {"k": "ref", "mut": bool(ety.get("mut")), "p": cl}
+    return {"k": "use", "a": {"k": "move", "p": cl}}
+
+
+def _option_map(m, blk, t, cl, cm, types, OPT, isize, cdef=None):
+    """splice `dest = Option::map(opt, closure)` as  match opt { None => None, Some(x) => Some(closure(x)) }"""
+    ln = t.get("ln", LN)
+    dest, target = t["dest"], t["t"]
+    L = len(m["locals"])
+    m["locals"] = m["locals"] + list(cm["locals"])
+    m["locals"].append(OPT)
+    OPTL = len(m["locals"]) - 1
+    m["locals"].append(isize)
+    DSC = len(m["locals"]) - 1
+    ENV, ITEM, RET = L + 1, L + 2, L + 0
+    item_ty = cm["locals"][2]
+    B = len(m["blocks"])
+    n = len(cm["blocks"])
+    SOME_B, CRET, NONE_B, UNR = B + n, B + n + 1, B + n + 2, B + n + 3
+    blk["s"] = blk["s"] + [
+        {"k": "assign", "p": OPTL, "r": {"k": "use", "a": t["args"][0]}, "ln": ln},
+        {"k": "assign", "p": ENV, "r": _env_rvalue(types, cm, cl), "ln": ln},
+        {"k": "assign", "p": DSC, "r": {"k": "discr", "p": OPTL}, "ln": ln},
+    ]
+    blk["t"] = {"k": "switch", "d": {"k": "move", "p": DSC}, "ts": [[0, NONE_B], [1, SOME_B]], "else": UNR, "ln": ln}
+    for cb in cm["blocks"]:
+        m["blocks"].append({"s": [_remap_stmt(s, L) for s in cb["s"]], "t": _remap_term(cb["t"], L, B, CRET), "c": cb.get("c", False)})
+    if cdef is not None:
+        _inline_env(m, B, n, ENV, types[cm["locals"][1]].get("k") == "ref", _captures(m, cdef))
+    def optv(vi, ops):
+        return {"k": "agg", "ops": ops, "ak": "adt", "path": "std::option::Option", "did": None, "vi": vi, "vn": ("None", "Some")[vi],
+                "fields": ["0"] if vi else [], "args": []}
+    m["blocks"].append({"s": [{"k": "assign", "p": ITEM, "r": {"k": "use", "a": {"k": "move", "p": {"l": OPTL, "p": [{"dc": 1, "n": "Some"}, {"f": 0, "n": "0", "t": item_ty}]}}}, "ln": ln}],
+                        "t": {"k": "goto", "t": B, "ln": ln}, "c": False})                                                   # SOME_B
+    m["blocks"].append({"s": [{"k": "assign", "p": dest, "r": optv(1, [{"k": "move", "p": RET}]), "ln": ln}],
+                        "t": {"k": "goto", "t": target, "ln": ln}, "c": False})                                              # CRET
+    m["blocks"].append({"s": [{"k": "assign", "p": dest, "r": optv(0, []), "ln": ln}], "t": {"k": "goto", "t": target, "ln": ln}, "c": False})   # NONE_B
+    m["blocks"].append({"s": [], "t": {"k": "unreachable", "ln": ln}, "c": False})                                          # UNR
+    return L
+
+
 def desugar(d):
     """rewrite d['fns'] in place; returns the number of desugared call sites"""
     by_did = {f["did"]: f for f in d["fns"]}
     types = d["types"]
     isize = next((i for i, t in enumerate(types) if t.get("s") == "isize"), 0)
+    BOOL = next((i for i, t in enumerate(types) if t.get("s") == "bool"), 0)
+    UNIT_TY = next((i for i, t in enumerate(types) if t.get("s") == "()"), 0)
+    # a Vec::push callee descriptor to reuse (any call site of the program)
+    PUSH = next((b["t"]["f"] for f in d["fns"] if f.get("mir") for b in f["mir"]["blocks"]
+                 if b["t"]["k"] == "call" and b["t"]["f"].get("path") == "std::vec::Vec::<T, A>::push"), None)
     types.append({"s": "std::option::Option<{item}>", "k": "adt", "path": "std::option::Option", "did": None, "args": [],
                   "variants": ["None", "Some"], "discrs": ["0", "1"], "ak": "enum"})
     OPT = len(types) - 1
@@ -161,11 +343,28 @@ def desugar(d):
             guard += 1
             for bi, blk in enumerate(m["blocks"]):
                 t = blk["t"]
-                if t["k"] != "call" or t["f"].get("path") not in (FOR_EACH, TRY_FOR_EACH) or len(t["args"]) != 2 or t.get("t") is None:
+                if t["k"] != "call" or (t["f"].get("path") not in LOOP_MODES and t["f"].get("path") not in (OPT_MAP, EXTEND)) or len(t["args"]) != 2 \
+                        or t.get("t") is None or blk.get("c"):
                     continue
                 cl = _local_of(t["args"][1])
                 if cl is None:
                     continue
+                it_op = t["args"][0]
+                map_site = None
+                if t["f"]["path"] == EXTEND:
+                    # vec.extend(iter.map(closure)): the argument is the single-use result of Iterator::map, the receiver a Vec
+                    if not str(t["f"].get("rpath", "")).startswith("<std::vec::Vec<") or PUSH is None:
+                        continue
+                    ms = [(i2, b2) for i2, b2 in enumerate(m["blocks"]) if b2["t"]["k"] == "call" and b2["t"].get("dest") == cl]
+                    uses = sum(1 for b2 in m["blocks"] for a in (b2["t"].get("args") or []) if _local_of(a) == cl)
+                    if len(ms) != 1 or uses != 1 or ms[0][1]["t"]["f"].get("path") != ITER_MAP or len(ms[0][1]["t"]["args"]) != 2 \
+                            or ms[0][1]["t"].get("t") is None or any(st.get("p") == cl for b2 in m["blocks"] for st in b2["s"]):
+                        continue
+                    map_site = ms[0][1]
+                    it_op = map_site["t"]["args"][0]
+                    cl = _local_of(map_site["t"]["args"][1])
+                    if cl is None:
+                        continue
                 cdef = _closure_def(m, cl)
                 if cdef is None:
                     continue
@@ -173,7 +372,23 @@ def desugar(d):
                 if cf is None or not cf.get("mir") or cf["mir"]["argc"] != 2:
                     continue
                 cm = cf["mir"]
-                is_try = t["f"]["path"] == TRY_FOR_EACH
+                if t["f"]["path"] == OPT_MAP:
+                    # only expression-like closures (no branches, no loops): splicing them is plain inlining of an expression.
+                    # Larger closures stay calls (the dependence engine analyses them as functions with their own summaries).
+                    if any(cb["t"]["k"] == "switch" for cb in cm["blocks"] if not cb.get("c")):
+                        continue
+                    L0 = _option_map(m, blk, t, cl, cm, types, OPT, isize, cdef)
+                    for v in cm.get("vars", []):
+                        m["vars"].append({"n": v["n"], "p": _remap_place(v["p"], L0)})
+                    for g2 in d["fns"]:
+                        if g2.get("parent") == cdef[2]:
+                            g2["parent"] = f["did"]
+                    consumed[cdef[2]] = consumed.get(cdef[2], 0) + 1
+                    n_sites += 1
+                    changed = True
+                    break
+                mode = LOOP_MODES.get(t["f"]["path"], "extend")
+                is_try = mode == "try"
                 L = len(m["locals"])
                 m["locals"] = m["locals"] + list(cm["locals"])
                 # extra locals: iterator, &mut iterator, next result, discriminant
@@ -181,7 +396,12 @@ def desugar(d):
                     m["locals"].append(ty)
                     return len(m["locals"]) - 1
                 it_ty = t["f"]["args"][0]["t"] if t["f"].get("args") else 0
+                if map_site is not None:
+                    it_ty = map_site["t"]["f"]["args"][0]["t"] if map_site["t"]["f"].get("args") else 0
+                    vec_op = dict(t["args"][0], k="copy")
+                    map_site["t"] = {"k": "goto", "t": map_site["t"]["t"], "ln": map_site["t"].get("ln", LN)}
                 IT = new_local(it_ty)
+                m.setdefault("vars", []).append({"n": "iter", "p": IT})      # like a `for` loop's iterator variable
                 RIT = new_local(it_ty)
                 NXT = new_local(OPT)
                 DSC = new_local(isize)
@@ -195,25 +415,58 @@ def desugar(d):
                 thread = _caller_try(m, dest, target) if is_try else None
                 # 1. the call site: materialise iterator and environment, jump to the loop header
                 blk["s"] = blk["s"] + [
-                    {"k": "assign", "p": IT, "r": {"k": "use", "a": t["args"][0]}, "ln": ln},
-                    {"k": "assign", "p": ENV, "r": {"k": "ref", "mut": True, "p": cl}, "ln": ln},
+                    {"k": "assign", "p": IT, "r": {"k": "use", "a": it_op}, "ln": ln},
+                    {"k": "assign", "p": ENV, "r": _env_rvalue(types, cm, cl), "ln": ln},
                 ]
                 blk["t"] = {"k": "goto", "t": H, "ln": ln}
                 # 2. closure body
                 for cb in cm["blocks"]:
                     m["blocks"].append({"s": [_remap_stmt(s, L) for s in cb["s"]], "t": _remap_term(cb["t"], L, B, CRET), "c": cb.get("c", False)})
+                _inline_env(m, B, n, ENV, types[cm["locals"][1]].get("k") == "ref", _captures(m, cdef))
                 # 3. loop skeleton
-                nextf = {"path": "std::iter::Iterator::next", "full": "<desugared as std::iter::Iterator>::next", "did": None, "args": [],
+                nextf = {"path": "std::iter::Iterator::next", "full": "<%s as std::iter::Iterator>::next" % types[it_ty].get("s", "desugared"), "did": None,
+                         "args": [{"t": it_ty}],
                          "name": "next", "trait": "std::iter::Iterator"}
                 m["blocks"].append({"s": [{"k": "assign", "p": RIT, "r": {"k": "ref", "mut": True, "p": IT}, "ln": ln}],
                                     "t": {"k": "call", "f": nextf, "args": [{"k": "move", "p": RIT}], "dest": NXT, "t": S,
                                                    "fl": [ln if isinstance(ln, int) else ln[0], "desugar:ForLoop"], "ln": ln}, "c": False})          # H
                 m["blocks"].append({"s": [{"k": "assign", "p": DSC, "r": {"k": "discr", "p": NXT}, "ln": ln}],
                                     "t": {"k": "switch", "d": {"k": "move", "p": DSC}, "ts": [[0, DONE], [1, B0]], "else": UNR, "ln": ln}, "c": False})   # S
-                m["blocks"].append({"s": [{"k": "assign", "p": ITEM, "r": {"k": "use", "a": {"k": "move", "p": {"l": NXT, "p": [{"dc": 1, "n": "Some"}, {"f": 0, "n": "0", "t": item_ty}]}}}, "ln": ln},
-                                          ],
-                                    "t": {"k": "goto", "t": B, "ln": ln}, "c": False})                                                                  # B0
-                if not is_try:
+                if mode == "find":
+                    pointee = types[item_ty].get("t", 0) if types[item_ty].get("k") == "ref" else 0
+                    ITM = new_local(pointee)
+                    m["blocks"].append({"s": [{"k": "assign", "p": ITM, "r": {"k": "use", "a": {"k": "move", "p": {"l": NXT, "p": [{"dc": 1, "n": "Some"}, {"f": 0, "n": "0", "t": pointee}]}}}, "ln": ln},
+                                              {"k": "assign", "p": ITEM, "r": {"k": "ref", "mut": False, "p": ITM}, "ln": ln}],
+                                        "t": {"k": "goto", "t": B, "ln": ln}, "c": False})                                                              # B0
+                else:
+                    m["blocks"].append({"s": [{"k": "assign", "p": ITEM, "r": {"k": "use", "a": {"k": "move", "p": {"l": NXT, "p": [{"dc": 1, "n": "Some"}, {"f": 0, "n": "0", "t": item_ty}]}}}, "ln": ln},
+                                              ],
+                                        "t": {"k": "goto", "t": B, "ln": ln}, "c": False})                                                              # B0
+                if mode == "extend":
+                    UNIT = new_local(UNIT_TY)
+                    m["blocks"].append({"s": [], "t": {"k": "call", "f": copy.deepcopy(PUSH), "args": [vec_op, {"k": "move", "p": RET}], "dest": UNIT, "t": H,
+                                                       "fl": ln, "ln": ln}, "c": False})                                                                # CRET
+                    m["blocks"].append({"s": [{"k": "assign", "p": dest, "r": {"k": "agg", "ops": [], "ak": "tuple"}, "ln": ln}],
+                                        "t": {"k": "goto", "t": target, "ln": ln}, "c": False})                                                         # DONE
+                    m["blocks"].append({"s": [], "t": {"k": "unreachable", "ln": ln}, "c": False})                                                     # UNR
+                elif mode in ("find", "any", "all"):
+                    FOUND = UNR + 1
+                    tt, ff = {"k": "const", "ty": BOOL, "v": 1}, {"k": "const", "ty": BOOL, "v": 0}
+                    def optv(vi, ops):
+                        return {"k": "agg", "ops": ops, "ak": "adt", "path": "std::option::Option", "did": None, "vi": vi, "vn": ("None", "Some")[vi],
+                                "fields": ["0"] if vi else [], "args": []}
+                    if mode == "find":
+                        hit, miss = optv(1, [{"k": "move", "p": ITM}]), optv(0, [])
+                    elif mode == "any":
+                        hit, miss = {"k": "use", "a": tt}, {"k": "use", "a": ff}
+                    else:
+                        hit, miss = {"k": "use", "a": ff}, {"k": "use", "a": tt}
+                    on0, on1 = (FOUND, H) if mode == "all" else (H, FOUND)
+                    m["blocks"].append({"s": [], "t": {"k": "switch", "d": {"k": "move", "p": RET}, "ts": [[0, on0]], "else": on1, "ln": ln}, "c": False})  # CRET
+                    m["blocks"].append({"s": [{"k": "assign", "p": dest, "r": miss, "ln": ln}], "t": {"k": "goto", "t": target, "ln": ln}, "c": False})     # DONE
+                    m["blocks"].append({"s": [], "t": {"k": "unreachable", "ln": ln}, "c": False})                                                         # UNR
+                    m["blocks"].append({"s": [{"k": "assign", "p": dest, "r": hit, "ln": ln}], "t": {"k": "goto", "t": target, "ln": ln}, "c": False})      # FOUND
+                elif not is_try:
                     m["blocks"].append({"s": [], "t": {"k": "goto", "t": H, "ln": ln}, "c": False})                                                    # CRET
                     m["blocks"].append({"s": [{"k": "assign", "p": dest, "r": {"k": "agg", "ops": [], "ak": "tuple"}, "ln": ln}],
                                         "t": {"k": "goto", "t": target, "ln": ln}, "c": False})                                                         # DONE
@@ -296,8 +549,99 @@ def desugar(d):
     if consumed:
         d["fns"] = [f for f in d["fns"] if not (f["did"] in consumed)]
     d["desugared_closures"] = sorted(consumed)
-    d["threaded_switches"] = sum(thread_const_switches(f["mir"]) for f in d["fns"] if f.get("mir"))
+    d["threaded_switches"] = 0
+    for f in d["fns"]:
+        if f.get("mir"):
+            for _ in range(4):
+                k = thread_variant_switches(f["mir"]) + thread_const_switches(f["mir"])
+                d["threaded_switches"] += k
+                if not k:
+                    break
     return n_sites
+
+
+def _preds(blocks, bi):
+    out = []
+    for pi, P in enumerate(blocks):
+        pt = P["t"]
+        tg = []
+        if pt["k"] == "goto":
+            tg = [pt["t"]]
+        elif pt["k"] == "switch":
+            tg = [b for _, b in pt["ts"]] + [pt["else"]]
+        elif pt["k"] in ("call", "drop", "assert", "tailcall"):
+            tg = [pt.get("t")]
+        if bi in tg:
+            out.append(pi)
+    return out
+
+
+STD_ENUMS = ("std::option::Option", "std::result::Result", "std::ops::ControlFlow")
+
+
+def thread_variant_switches(m):
+    """a block `[q = move r;] d = discriminant(q); switch d` (only plain statements) all of whose predecessors end
+    `r = <Variant>(..); goto B` is bypassed: each predecessor takes B's statements (with `move r` replaced by the
+    aggregate it just built) and jumps to the arm of its variant.  Only Option / Result / ControlFlow (variant index =
+    discriminant).  This makes `iter.find(..).map(..)`, once spliced, the same control flow as the loop with an early return."""
+    blocks = m["blocks"]
+    n = 0
+    for bi, B in enumerate(blocks):
+        t = B["t"]
+        if bi == 0 or t["k"] != "switch" or B.get("c") or not B["s"]:
+            continue
+        dl = _local_of(t["d"])
+        if dl is None:
+            continue
+        if any(st.get("k") != "assign" or not isinstance(st.get("p"), int) or st.get("r", {}).get("k") not in ("use", "discr", "ref", "agg", "cast", "bin", "un") for st in B["s"]):
+            continue
+        dsc = [st for st in B["s"] if st["p"] == dl]
+        if len(dsc) != 1 or dsc[0]["r"]["k"] != "discr" or not isinstance(dsc[0]["r"]["p"], int):
+            continue
+        q = dsc[0]["r"]["p"]
+        r = q
+        qd = [st for st in B["s"] if st["p"] == q]
+        if len(qd) == 1 and qd[0]["r"]["k"] == "use" and _local_of(qd[0]["r"]["a"]) is not None:
+            r = _local_of(qd[0]["r"]["a"])
+        elif qd:
+            continue
+        preds = _preds(blocks, bi)
+        plan = []
+        for pi in preds:
+            P = blocks[pi]
+            if P["t"]["k"] != "goto" or pi == bi:
+                plan = None
+                break
+            agg = None
+            for st in reversed(P["s"]):
+                if st.get("k") == "assign" and st.get("p") == r:
+                    rv = st.get("r", {})
+                    if rv.get("k") == "agg" and rv.get("ak") == "adt" and rv.get("path") in STD_ENUMS and isinstance(rv.get("vi"), int):
+                        agg = rv
+                    break
+                if st.get("k") == "assign" and isinstance(st.get("p"), dict) and st["p"].get("l") == r:
+                    break
+            if agg is None:
+                plan = None
+                break
+            plan.append((pi, agg))
+        if not plan:
+            continue
+        for pi, agg in plan:
+            P = blocks[pi]
+            extra = []
+            for st in B["s"]:
+                st2 = dict(st)
+                if r != q and st["p"] == q:
+                    st2["r"] = agg                      # q = <the aggregate just built>
+                extra.append(st2)
+            P["s"] = P["s"] + extra
+            tgt = next((b for val, b in t["ts"] if val == agg["vi"]), t["else"])
+            P["t"] = dict(P["t"], t=tgt)
+            n += 1
+        B["s"] = []
+        B["t"] = {"k": "unreachable", "ln": t.get("ln", LN)}
+    return n
 
 
 def thread_const_switches(m):
